@@ -135,12 +135,18 @@ def shards_capture(tier):
     return shards_general(tier) + ([("focus", 8000)] * 3 if tier == "quick" else [("focus", 30000)] * 10)
 
 
+def shards_unclean(tier):
+    # C02 / C10 also say what happens to a piece that a PARSED position already shows unsupported on a trap:
+    # games from such roots are judged by these two conjuncts only (ArimaaTrace.tla, En)
+    return shards_capture(tier) + ([("unclean", 4000)] * 2 if tier == "quick" else [("unclean", 20000)] * 6)
+
+
 def shards_results(tier):
     return shards_general(tier) + [("results", 100000)]
 
 
 SHARDS = {
-    "C01": shards_rules, "C12": shards_rules, "C02": shards_capture, "C13": shards_capture, "C19": shards_capture,
+    "C01": shards_rules, "C12": shards_rules, "C02": shards_unclean, "C10": shards_unclean, "C13": shards_capture, "C19": shards_capture,
     "C04": shards_results,
     "C05": shards_repetition, "C06": shards_repetition, "C07": shards_repetition,
     "C09": shards_setup,
